@@ -122,7 +122,7 @@ func replay(args []string) {
 		}
 		// run one estimator in the three modes; check returns the observed parameter vector
 		drive := func(family string, mk func() (interface{}, error), check func(mode string, p []float64, pdf ScalarPdf)) {
-			modes := []string{"weighted", "batch-weighted"}
+			modes := []string{"weighted", "batch-weighted", "clone-weighted"}
 			if c.UnitWeights {
 				modes = append(modes, "unweighted", "batch-unweighted")
 			}
@@ -132,10 +132,14 @@ func replay(args []string) {
 					report(family, mode, "constructor_error", "estimator", err.Error())
 					continue
 				}
+				if mode == "clone-weighted" {
+					// a copy of a configured estimator is configured alike (bounds included)
+					e = e.(interface{ CloneScalarEstimator() ScalarEstimator }).CloneScalarEstimator()
+				}
 				var pdf ScalarPdf
 				msg := vh.Try(func() {
 					switch mode {
-					case "weighted":
+					case "weighted", "clone-weighted":
 						err = e.(scalarEst).EstimateOnData(x, gamma, ThreadPool{})
 					case "unweighted":
 						err = e.(scalarEst).EstimateOnData(x, nil, ThreadPool{})
@@ -592,7 +596,6 @@ func nestedMixtures(rng *rand.Rand) []ScalarEstimator {
 	return []ScalarEstimator{mk(-3, -1), mk(1, 3)}
 }
 
-
 // mixture on a summarized data set (value, count): repeated values are stored once
 func discreteMixtureScenario() emScenario {
 	return emScenario{"dmix-poisson-summarized", func(rng *rand.Rand, epsilon float64, maxSteps int, emit func(emev)) (float64, error) {
@@ -664,6 +667,131 @@ func emScenarios() []emScenario {
 		tiedHmmScenario("vhmm-tied-normal", normals, func(r *rand.Rand) []float64 { return normalData(r, 6+r.Intn(12), 2) }),
 		hmmScenario("vhmm-nested-mixture", nestedMixtures, func(r *rand.Rand) []float64 { return normalData(r, 6+r.Intn(12), 2) }, nil, nil),
 	}
+}
+
+// ------------------------------------------------------------------ numeric estimators: stationarity
+
+type numev struct {
+	E      string `json:"e"`
+	Family string `json:"family"`
+	Sparse bool   `json:"sparse"`
+	Cw     int    `json:"cw"`
+	N      int    `json:"n"`
+	Gnorm  int    `json:"gnorm"` // max |d/dtheta_k weighted log-likelihood| at the estimate, scaled by 1e9, capped
+	Err    bool   `json:"err"`
+	Seed   int64  `json:"seed"`
+	skip   bool
+}
+
+// logistic regression (SAGA): the returned theta must be a stationary point of the class-weighted
+// log-likelihood; the gradient is evaluated here from the data, independently of the estimator's f_dense/f_sparse
+func recordNumeric(trace *vh.Out, out *vh.Out, nruns int, seed int64) int {
+	cws := [][2]float64{{1, 1}, {1, 3}, {2, 0.5}, {0, 0}} // {0,0} = Balance option
+	n0 := 0
+	for i := 0; i < nruns; i++ {
+		rseed := seed*3000017 + int64(i)
+		rng := rand.New(rand.NewSource(rseed))
+		sparse := i%2 == 1
+		cwi := (i / 2) % len(cws)
+		n := 30 + rng.Intn(50)
+		m := 2 + rng.Intn(2)
+		beta := make([]float64, m+1)
+		for k := range beta {
+			beta[k] = math.Round(rng.NormFloat64()*8) / 8
+		}
+		raw := make([][]float64, n)
+		xs := make([]ConstVector, n)
+		n1 := 0
+		for j := range raw {
+			r := make([]float64, m+2)
+			r[0] = 1
+			z := beta[0]
+			for k := 1; k <= m; k++ {
+				r[k] = math.Round(rng.NormFloat64()*16) / 16
+				z += beta[k] * r[k]
+			}
+			if rng.Float64() < 1/(1+math.Exp(-z)) {
+				r[m+1] = 1
+				n1++
+			}
+			raw[j] = r
+			if sparse {
+				xs[j] = AsSparseConstFloat64Vector(NewDenseFloat64Vector(r))
+			} else {
+				xs[j] = NewDenseFloat64Vector(r)
+			}
+		}
+		if n1 < 3 || n-n1 < 3 {
+			continue // (nearly) separable data: no finite maximiser
+		}
+		ev := numev{E: "numeric", Family: "logistic", Sparse: sparse, Cw: cwi, N: n, Seed: rseed}
+		msg := vh.Try(func() {
+			est, err := vectorEstimator.NewLogisticRegression(m+1, sparse)
+			if err != nil {
+				ev.Err = true
+				return
+			}
+			cw := cws[cwi]
+			if cwi == 3 {
+				est.Balance = true
+				cw = [2]float64{float64(n) / float64(2*(n-n1)), float64(n) / float64(2*n1)}
+			} else {
+				est.ClassWeights = cw
+			}
+			est.Epsilon = 1e-10
+			est.MaxIterations = 400000
+			if err := est.EstimateOnData(xs, nil, ThreadPool{}); err != nil {
+				ev.Err = true
+				return
+			}
+			th := est.GetParameters()
+			for k := 0; k <= m; k++ {
+				if math.Abs(th.Float64At(k)) > 12 {
+					// (nearly) separable data: the likelihood has no finite maximiser and the iteration
+					// drifts to infinity - nothing is required of such a run
+					ev.skip = true
+					return
+				}
+			}
+			g := make([]float64, m+1)
+			for _, r := range raw {
+				z := 0.0
+				for k := 0; k <= m; k++ {
+					z += th.Float64At(k) * r[k]
+				}
+				w := cw[int(r[m+1])]
+				sg := 1 / (1 + math.Exp(-z))
+				for k := 0; k <= m; k++ {
+					g[k] += w * (r[m+1] - sg) * r[k]
+				}
+			}
+			if os.Getenv("ESTIM_NUMDEBUG") != "" {
+				fmt.Fprintln(os.Stderr, "numeric", rseed, sparse, cw, "n", n, "n1", n1, "theta", th, "grad", g)
+			}
+			gm := 0.0
+			for _, v := range g {
+				if math.IsNaN(v) {
+					gm = math.Inf(1)
+				}
+				gm = math.Max(gm, math.Abs(v))
+			}
+			if gm*1e9 > 2e9 {
+				ev.Gnorm = 2000000000
+			} else {
+				ev.Gnorm = int(gm * 1e9)
+			}
+		})
+		if msg != "" {
+			vh.Mismatch(out, vh.M{"engine": "estim", "what": "panic", "scenario": "logistic"}, vh.M{"mode": "numeric", "seed": rseed, "panic": msg})
+			ev.Err = true
+		}
+		if ev.skip {
+			continue
+		}
+		trace.Put(ev)
+		n0++
+	}
+	return n0
 }
 
 func record(args []string) {
@@ -749,7 +877,11 @@ func record(args []string) {
 			break
 		}
 	}
-	vh.Summary(out, vh.M{"runs": runs, "events": events})
+	nnum := 0
+	if only == "" {
+		nnum = recordNumeric(trace, out, nruns/4+8, seed)
+	}
+	vh.Summary(out, vh.M{"runs": runs, "events": events + nnum, "numeric_runs": nnum})
 }
 
 func main() {
